@@ -205,10 +205,10 @@ class Engine:
         return names
 
     def classes_of(self, st, ref):
-        return st.ghost.get(("cls", ref.z.get_id()), ref.classes)
+        return st.ghost.get(("cls", zid(ref.z)), ref.classes)
 
     def narrow(self, st, ref, classes):
-        st.ghost[("cls", ref.z.get_id())] = tuple(classes)
+        st.ghost[("cls", zid(ref.z))] = tuple(classes)
         ids = [st.classid(c) for c in classes]
         st.assume(z3.Or([st.heap.get("$cls", ref.z) == i for i in ids]))
 
@@ -233,7 +233,7 @@ class Engine:
             if self.feasible(st, cond):
                 s2 = st.fork()
                 s2.assume(cond)
-                s2.ghost[("cls", ref.z.get_id())] = tuple(groups[k])
+                s2.ghost[("cls", zid(ref.z))] = tuple(groups[k])
                 s2.trace.append(f"{label}:{'|'.join(c.__name__ for c in groups[k])}")
                 out.append((s2, groups[k], k))
         return out
@@ -261,7 +261,7 @@ class Engine:
             return [(st, Opaque(f"field {field}"))]
         z = ref.z
         if kind == "py":
-            k = ("fld", field, z.get_id())
+            k = ("fld", field, zid(z))
             if k not in st.ghost:
                 return [(st, Opaque(f"py-field {field} of unknown object"))]
             return [(st, st.ghost[k])]
@@ -317,7 +317,7 @@ class Engine:
             fd = getattr(getattr(c, "DESCRIPTOR", None), "fields_by_name", {}).get(field) \
                 if hasattr(c, "DESCRIPTOR") else None
             if fd is not None and fd.containing_oneof is not None:
-                st.ghost[("oneof", ref.z.get_id(), fd.containing_oneof.name)] = field
+                st.ghost[("oneof", zid(ref.z), fd.containing_oneof.name)] = field
         field = self.field_key(st, ref, field)
         kind = st.heap.schema.get(field)
         if kind is None:
@@ -326,7 +326,7 @@ class Engine:
             return
         z = ref.z
         if kind == "py":
-            st.ghost[("fld", field, z.get_id())] = val
+            st.ghost[("fld", field, zid(z))] = val
         elif kind == "int":
             st.heap.put(field, z, zint(val))
         elif kind == "bool":
@@ -533,7 +533,7 @@ class Engine:
             elif inspect.isclass(v) and issubclass(v, BaseException):
                 out.append(("exc", s2, Exc(v)))
             elif isinstance(v, SRef) and all(issubclass(c, BaseException) for c in self.classes_of(s2, v)):
-                orig = s2.ghost.get(("excobj", v.z.get_id()))
+                orig = s2.ghost.get(("excobj", zid(v.z)))
                 cls = orig.cls if orig is not None else self.classes_of(s2, v)[0]
                 e = Exc(cls, "stored")
                 out.append(("exc", s2, e))
@@ -690,7 +690,7 @@ class Engine:
                     if h.name:
                         # the caught exception object: a live object of the exception's class
                         eref = s2.alloc(v.cls)
-                        s2.ghost[("excobj", eref.z.get_id())] = v
+                        s2.ghost[("excobj", zid(eref.z))] = v
                         s2.locals[h.name] = eref
                     out.extend(self.exec_block(h.body, s2))
                     handled = True
